@@ -256,6 +256,32 @@ def run(F, R, ctx):
                        marker, kind, c, kind, need), fn_.loc(), sample=True if nh <= 3 else None)
     R.floor("C04.h", "kinds compared", nh, 30)
 
+    # ---------------- j: a full mark starts from a clean slate on BOTH free lists
+    R.rule("C04.j", "every call of Heap::mark_and_sweep_new is dominated by FreeList::mark_all_unreachable on both the value "
+                    "free list and the vector free list: the markers use the mark bit as their visited set "
+                    "(mark_heap_reference returns early on an already-marked slot), so a stale mark on a box stops the "
+                    "traversal there and everything reachable only through that box stays unmarked and is reclaimed")
+    msn = r"\{impl Heap\}::mark_and_sweep_new$"
+    for fn in [f for f in F.fns.values() if f.name.startswith("steel::values::closed::") and f.call_blocks(msn)]:
+        dom = fn.dominators()
+        for b in fn.call_blocks(msn):
+            resets = [x for x in fn.call_blocks(r"FreeList<T>\}::mark_all_unreachable$") if x in dom[b]]
+            lists = set()
+            for x in resets:
+                srcs = set()
+                for a in fn.blocks[x]["args"][:1]:
+                    srcs |= lib.alias_sources(fn, a) if a.startswith("_") else {a}
+                for s_ in srcs:
+                    for fld in ("memory_free_list", "vector_free_list"):
+                        if fld in s_:
+                            lists.add(fld)
+            R.inst("C04.j", "%s / full mark starts with both free lists unmarked" % fn.short(),
+                   lists == {"memory_free_list", "vector_free_list"},
+                   "%s runs a full mark after resetting only %s: slots of the other list keep the marks of the previous "
+                   "cycle, and the traversal stops at every already-marked box (mark_heap_reference returns early), so "
+                   "mutable vectors / boxes reachable only through such a box are left unmarked and their slots are reused"
+                   % (fn.short(), sorted(lists) or "nothing"), fn.loc(fn.blocks[b]["line"]), sample={"reset": sorted(lists)})
+
     # ---------------- i: the parallel marker marks every root and waits for every worker
     pm = F.find(r"^steel::values::closed::\{impl ParallelMarker\}::mark$")
     if pm:
